@@ -76,6 +76,19 @@ def _run(cmd, cwd, env, timeout):
     return p.returncode, p.stdout, time.time() - t0
 
 
+def _run_tlc(cmd, cwd, env, timeout):
+    """_run with a retry when the JVM/TLC did not even start (transient under load)"""
+    for attempt in range(3):
+        rc, out, wall = _run(cmd, cwd, env, timeout)
+        started = ('Starting...' in out) or ('Computing initial states' in out) or ('Error:' in out and 'Parsing' in out)
+        if rc is None or started or 'semantic analysis failed' in out:
+            return rc, out, wall
+        log('TLC did not start (attempt %d, rc=%s): %s' % (attempt + 1, rc, out[-300:].replace('\n', ' | ')))
+        time.sleep(3 + 5 * attempt)
+        shutil.rmtree(os.path.join(cwd, 'meta'), ignore_errors=True)
+    return rc, out, wall
+
+
 _stat_re = re.compile(r'(\d+) states generated, (\d+) distinct states found, (\d+) states left on queue')
 _depth_re = re.compile(r'The depth of the complete state graph search is (\d+)')
 
@@ -91,7 +104,7 @@ def tlc_check(module, cfg, workers=None, timeout=600, coverage=False, extra=None
             cmd += ['-coverage', '1']
         cmd += [module]
         env = _tlc_env(d)
-        rc, out, wall = _run(cmd, d, env, timeout)
+        rc, out, wall = _run_tlc(cmd, d, env, timeout)
         res = {'rc': rc, 'out': out, 'wall': wall, 'generated': 0, 'distinct': 0, 'depth': 0,
                'violated': [], 'complete': False, 'ok': False, 'zero_cov': []}
         for m in _stat_re.finditer(out):
@@ -127,7 +140,7 @@ def tlc_simulate(module, cfg, num, depth, seed, var='last', timeout=600, extra=N
         cmd = ['tlc', '-workers', '1', '-simulate', 'file=%s/b,num=%d' % (sd, num), '-depth', str(depth),
                '-seed', str(seed), '-metadir', os.path.join(d, 'meta'), '-config', cfg,
                '-noGenerateSpecTE', module]
-        rc, out, wall = _run(cmd, d, _tlc_env(d), timeout)
+        rc, out, wall = _run_tlc(cmd, d, _tlc_env(d), timeout)
         if rc != 0:
             raise Inconclusive('TLC simulation failed rc=%s\n%s' % (rc, out[-3000:]))
         behaviours = []
@@ -150,7 +163,7 @@ def tlc_counterexample(module, cfg, var='last', workers=None, timeout=900, extra
         _stage_specs(d, extra)
         cmd = ['tlc', '-workers', str(workers or NCPU), '-metadir', os.path.join(d, 'meta'), '-config', cfg,
                '-noGenerateSpecTE', module]
-        rc, out, wall = _run(cmd, d, _tlc_env(d), timeout)
+        rc, out, wall = _run_tlc(cmd, d, _tlc_env(d), timeout)
         if rc is None:
             raise Inconclusive('TLC timed out on %s' % cfg)
         names = re.findall(r'Invariant (\S+) is violated', out)
@@ -178,7 +191,7 @@ def tlc_trace(module, cfg, ndjson, timeout=900, extra=None, deque=False):
             env['JAVA_TOOL_OPTIONS'] += ' -Dtlc2.tool.queue.IStateQueue=StateDeque'
         cmd = ['tlc', '-workers', '1', '-metadir', os.path.join(d, 'meta'), '-config', cfg,
                '-noGenerateSpecTE', module]
-        rc, out, wall = _run(cmd, d, env, timeout)
+        rc, out, wall = _run_tlc(cmd, d, env, timeout)
         fails = []
         for m in re.finditer(r'^<<"FAIL", (.*?)>>\s*$', out, re.M):
             vals = tlaval.parse('<<' + m.group(1) + '>>')
